@@ -133,9 +133,15 @@ func wrapSub[S tsubI[E, CR], E teventI[T], CR tcacheI[T], T metav1.Object](s S) 
 			return idsOf(l), nil
 		},
 	}
-	ts.start()
+	if !tsubPaused {
+		ts.start()
+	}
 	return ts
 }
+
+// tsubPaused: typed subscriptions created while it is set have no reader until
+// start() is called (a consumer that does not read).
+var tsubPaused bool
 
 // typedHandlerLog is what the per-package glue feeds from typed handler callbacks.
 func (n *node) typedCallback(what string, ids []int) {
